@@ -237,6 +237,12 @@ func evaluateBoolOperator
   atreturn and-is-true-only-when-both-sides-are: result1 == nil && (strings.ToUpper(node.Value) == "AND" || strings.ToUpper(node.Value) == "&&") ==> (result0 <==> (left && $b))
   atreturn or-is-true-when-either-side-is: result1 == nil && (strings.ToUpper(node.Value) == "OR" || strings.ToUpper(node.Value) == "||") ==> (result0 <==> (left__2 || $b))
   atreturn not-negates-its-operand: result1 == nil && (strings.ToUpper(node.Value) == "NOT" || strings.ToUpper(node.Value) == "!") ==> (result0 <==> !$b)
+  count evals := evaluateBoolNode
+  observe berr := evaluateBoolNode#1
+  atreturn or-with-a-true-left-side-is-true-at-once-the-right-side-is-not-evaluated: (strings.ToUpper(node.Value) == "OR" || strings.ToUpper(node.Value) == "||") && $evals == 1 && $berr == nil && $b ==> result0 && result1 == nil
+  atreturn or-evaluates-its-right-side-only-when-the-left-side-is-false: (strings.ToUpper(node.Value) == "OR" || strings.ToUpper(node.Value) == "||") && $evals == 2 ==> !left__2
+  atreturn and-with-a-false-left-side-is-false-at-once-the-right-side-is-not-evaluated: (strings.ToUpper(node.Value) == "AND" || strings.ToUpper(node.Value) == "&&") && $evals == 1 && $berr == nil && !$b ==> !result0 && result1 == nil
+  atreturn and-evaluates-its-right-side-only-when-the-left-side-is-true: (strings.ToUpper(node.Value) == "AND" || strings.ToUpper(node.Value) == "&&") && $evals == 2 ==> left
 
 func evaluateIsOperator
   props C06 C13
